@@ -81,7 +81,7 @@ def diag (f : Func) (S : State) (E : List Edge) (R : Array Bool) : List String :
           for tn in t.nodes do
             if !E.contains (sn, tn, eidx o) then
               out := out ++ [s!"edge at={t.loc} val={t.val} mark={o.mark} src={sn} dst={tn} idx={eidx o}"]
-  return out.take 40
+  return out.take 200
 
 /-- SSA sanity: the definition of every data operand / boundary value reaches its use. -/
 def answer (acc : PAcc) : String :=
